@@ -304,6 +304,92 @@ def lattice_tree(rng):
             'chunksize': rng.choice([cs, cs, None])}
 
 
+def corner_lattice(rng, k=7):
+    """linked pairs placed over a k x k lattice of positions covering one chunk (chunk size = the enforced minimum), with two
+    far anchors that keep the chunk grid fixed during the sweep: some placements put the two points into diagonally adjacent
+    chunks whose two side chunks hold no point of their own"""
+    ll = rng.choice([0.1, 0.25, 0.5, 1.0])
+    cs = 4.0 * ll
+    ra0 = rng.uniform(30, 300)
+    dec0 = rng.uniform(-50, 50)
+    cosd = math.cos(dec0 * D2R)
+    bearing = rng.choice([45.0, 135.0, 225.0, 315.0]) + rng.uniform(-12, 12)
+    eps = rng.choice([1e-3, 1e-2, 1e-1, 0.3])
+    anchors = [(G.norm_ra(ra0 - 5.3 * cs / cosd), dec0 - 5.2 * cs), (G.norm_ra(ra0 + 6.1 * cs / cosd), dec0 + 5.7 * cs)]
+    extra = []
+    if rng.random() < 0.4:          # a second pair elsewhere, not linked to the first
+        e = (G.norm_ra(ra0 + 3.3 * cs / cosd), dec0 - 2.9 * cs)
+        extra = [e, G.offset_point(e[0], e[1], ll * 0.8, rng.uniform(0, 360))]
+    chunk = rng.choice([cs, cs, None])
+    out = []
+    for i in range(k):
+        for j in range(k):
+            a = (G.norm_ra(ra0 + (i + 0.37) / k * cs / cosd), dec0 + (j + 0.61) / k * cs)
+            b = G.offset_point(a[0], a[1], ll * (1 - eps), bearing)
+            pts = [a, b] + anchors + extra
+            idx = list(range(len(pts)))
+            rng.shuffle(idx)
+            out.append({'fam': 'corner-lattice', 'ra': [pts[t][0] for t in idx], 'dec': [pts[t][1] for t in idx], 'linklength': ll,
+                        'chunksize': chunk})
+    return out
+
+
+def lattice_loop(rng):
+    """closed rings and U shapes on a lattice of spacing < linklength, spanning several chunk rows and columns"""
+    ll = rng.choice([0.25, 0.25, 0.1, 0.5])
+    cs = 4 * ll
+    s = ll * rng.uniform(0.75, 0.95)
+    w, h = rng.randint(3, 14), rng.randint(3, 14)
+    ring = [(x, 0) for x in range(w)] + [(w - 1, y) for y in range(1, h)] + [(x, h - 1) for x in range(w - 2, -1, -1)] + \
+           [(0, y) for y in range(h - 2, 0, -1)]
+    shape = rng.choice(['ring', 'U', 'C'])
+    if shape == 'U':
+        ring = [p for p in ring if not (p[1] == h - 1 and 0 < p[0] < w - 1)]
+    elif shape == 'C':
+        ring = [p for p in ring if not (p[0] == w - 1 and 0 < p[1] < h - 1)]
+    ring = ring[:60]
+    ra0 = rng.uniform(20, 340)
+    dec0 = rng.uniform(-40, 40)
+    ox, oy = rng.uniform(0, cs), rng.uniform(0, cs)
+    c = math.cos(dec0 * D2R)
+    pts = [(G.norm_ra(ra0 + (p[0] * s + ox) / c), dec0 + p[1] * s + oy) for p in ring]
+    rng.shuffle(pts)
+    return {'fam': 'lattice-loop', 'ra': [p[0] for p in pts], 'dec': [p[1] for p in pts], 'linklength': ll,
+            'chunksize': rng.choice([cs, cs, None])}
+
+
+def history_cases(rng):
+    """several spheregroup calls made one after the other in ONE implementation process: lists of equal length grouped one
+    after the other, the identical call repeated, lists of different lengths interleaved"""
+    kind = rng.choice(['equal-length-lists', 'equal-length-lists', 'identical-call-repeated', 'mixed-lengths'])
+
+    def small(n=None):
+        for _ in range(60):
+            c = gen_base(rng, rng.choice(['chain-ra', 'clusters', 'joined', 'seam', 'dtype']))
+            if admissible(c) and len(c['ra']) >= 3:
+                m = n if n is not None else rng.randint(3, min(16, len(c['ra'])))
+                if len(c['ra']) >= m:
+                    c = dict(c, ra=c['ra'][:m], dec=c['dec'][:m])
+                    return c
+        return None
+    first = small()
+    if first is None:
+        return None
+    h = [first]
+    for _ in range(rng.randint(2, 3)):
+        if kind == 'identical-call-repeated':
+            c = dict(h[0])
+        elif kind == 'equal-length-lists':
+            c = small(len(first['ra']))
+        else:
+            c = small()
+        if c is not None:
+            h.append(c)
+    for c in h:
+        c['history_kind'] = kind
+    return h
+
+
 def synthetic_case(rng, nmax=14):
     """arbitrary link (a forest plus a few extra edges, symmetric, reflexive) and arbitrary overlapping cell lists that
     satisfy pair_coverage (every edge inside some cell, every point in some cell), cells in random order"""
@@ -372,7 +458,12 @@ def screen_batch(cases, timeout=1500):
     sus = []
     for bi, o in enumerate(outs):
         sus += [bi + k * nb for k in o['suspicious']]
+        if o.get('synthetic_driver_inapplicable'):
+            SYN_INAPPLICABLE[0] = True
     return sorted(sus)
+
+
+SYN_INAPPLICABLE = [False]     # set when the synthetic-cell driver's glue does not fit the code under test (changed signatures)
 
 
 def run_synthetic(cases):
@@ -413,7 +504,73 @@ def case_term(case, res):
         f5 = '(Some (%s, %s, %s, %s, %s))' % (zl(fof['inGroup']), zl(fof['multGroup']), zl(fof['firstGroup']), zl(fof['nextGroup']), C.zlit(fof['nGroups']))
     else:
         f5 = 'None'
-    return '(%s, (%s, %s))' % (base, C.coq_list(cells), f5)
+    return '(%s, ((%s : list cellrec), %s))' % (base, C.coq_list(cells), f5)
+
+
+def base_term(res):
+    """case without recorded internals, for Model.run_cases (oracle comparison only)"""
+    o = res['ok']
+    return '(mkcase %s %s %s %s %s None)' % (C.coq_list(res['adj']), zl(o[0]), zl(o[1]), zl(o[2]), zl(o[3]))
+
+
+def run_histories(hists, timeout=1500):
+    if not hists:
+        return []
+    nb = min(C.NPROC, len(hists))
+    batches = [hists[i::nb] for i in range(nb)]
+    outs = C.run_impl_parallel('c05_impl.py', [{'mode': 'history', 'histories': bt} for bt in batches], timeout=timeout)
+    res = [None] * len(hists)
+    for bi, o in enumerate(outs):
+        for k, r in enumerate(o['histories']):
+            res[bi + k * nb] = r
+    return res
+
+
+def check_histories(ctx):
+    """multi-call histories inside one implementation process: the four arrays of every call, as the caller holds them after
+    the LAST call of the history, must be (components, lists_of) of that call's own list; inputs must be unchanged"""
+    rng = ctx.rng
+    hists = [h for h in (history_cases(rng) for _ in range(ctx.n(12, 200))) if h and len(h) >= 2]
+    hres = run_histories(hists)
+    terms, where = [], []
+    for hi, (h, rs) in enumerate(zip(hists, hres)):
+        for ci, (c, r) in enumerate(zip(h, rs)):
+            if not r.get('inputs_unchanged', True):
+                ctx.violation('C05:history:inputs-modified', 'spheregroup modified a caller-owned coordinate array (call %d of a history)' % ci,
+                              {'kind': 'failing-input', 'history': h, 'call_index': ci}, True)
+            if 'ok' not in r:
+                ctx.violation('C05:history:raise:%s' % r.get('err'),
+                              'call %d of a %d-call history (%s) raised %s (%s)' % (ci, len(h), c.get('history_kind'), r.get('err'), r.get('msg', '')[:60]),
+                              {'kind': 'failing-input', 'history': h, 'call_index': ci, 'impl_result': {k: v for k, v in r.items() if k != 'adj'}}, True)
+                continue
+            if r['nearest_threshold_rel'] is not None and r['nearest_threshold_rel'] <= (1e-4 if c.get('dtype') else 1e-9):
+                continue
+            terms.append(base_term(r))
+            where.append((hi, ci))
+    cc = C.CoqCases(ctx.work, HEADER, 'run_cases', shard=max(4, len(terms) // (2 * C.NPROC) + 1))
+    verdicts = cc.run(terms, tag='hist') if terms else []
+    bad = 0
+    seen = set()
+    for (hi, ci), v in zip(where, verdicts):
+        if v == 0:
+            continue
+        bad += 1
+        h, r = hists[hi], hres[hi][ci]
+        overwritten = r.get('immediate') != r.get('ok')
+        sig = 'C05:history:%s' % ('result-overwritten-by-later-call' if overwritten else 'result-depends-on-earlier-calls')
+        if sig in seen:
+            continue
+        seen.add(sig)
+        ctx.violation(sig, 'call %d of a %d-call history (%s) in one process: the arrays the caller holds after the last call are not '
+                           '(components, lists_of) of that call\'s list (%s)' % (
+                               ci, len(h), h[ci].get('history_kind'),
+                               'they were correct when returned and changed afterwards' if overwritten else 'already wrong when returned'),
+                      {'kind': 'failing-input', 'history': h, 'call_index': ci, 'held_result': r.get('ok'), 'result_when_returned': r.get('immediate'),
+                       'expected_ingroup_uncertified': py_components([int(x) for x in r['adj']], len(h[ci]['ra'])), 'verdict': v,
+                       'meaning': 'every call of the history is an admissible input on its own; the result of a call is what the caller holds: '
+                                  'it is compared, in Coq, with C05.Model.spec_output of that call after the last call of the history'}, True)
+    ctx.coverage['histories'] = {'histories': len(hists), 'calls_checked_in_coq': len(terms), 'rejected': bad,
+                                 'kinds': sorted(set(h[0].get('history_kind') for h in hists))}
 
 
 def py_components(adj, n):
@@ -495,21 +652,38 @@ def correspond(ctx, proof_ok=True):
         cases.append(reorder(rng, c))
     # deep-merge families: screened in volume by an uncertified comparison inside the implementation process; every
     # suspicious case and a fixed-size sample go through the full recorded run and the Coq evaluation below
-    sky = [lattice_tree(rng) for _ in range(ctx.n(8000, 200000))]
+    sky = [lattice_tree(rng) for _ in range(ctx.n(6000, 200000))]
+    n_tree = len(sky)
+    sky += [lattice_loop(rng) for _ in range(ctx.n(1000, 30000))]
+    n_loop = len(sky) - n_tree
+    for _ in range(ctx.n(40, 1500)):          # 40 sweeps of 49 placements
+        sky += corner_lattice(rng)
+    sky = [c for c in sky if admissible(c)]
     sky_sus = screen_batch(sky)
-    pick = sky_sus[:8] + list(range(0, len(sky), max(1, len(sky) // ctx.n(8, 200))))
+    by_fam = {}
+    for k in sky_sus:
+        by_fam.setdefault(sky[k]['fam'], []).append(k)
+    pick = [k for ks in by_fam.values() for k in ks[:6]] + list(range(0, n_tree, max(1, n_tree // ctx.n(8, 200)))) + \
+        list(range(n_tree, len(sky), max(1, (len(sky) - n_tree) // ctx.n(12, 200))))
     cases += [sky[k] for k in sorted(set(pick))]
-    syn = [synthetic_case(rng) for _ in range(ctx.n(6000, 200000))]
+    syn = [synthetic_case(rng) for _ in range(ctx.n(5000, 200000))]
     for nn in (4, 5, 6):
         syn += exhaustive_edge_orders(rng, nn)
     syn = [c for c in syn if synthetic_covered(c)]
     syn_sus = screen_batch(syn)
     pick = syn_sus[:8] + list(range(0, len(syn), max(1, len(syn) // ctx.n(40, 400))))
     syn_cases = [syn[k] for k in sorted(set(pick))]
+    if SYN_INAPPLICABLE[0]:
+        # the driver replaces chunks.assign / groups.sphereradec from outside; when their signatures changed it says nothing
+        # about the code: rely on the end-to-end sky families above (not an alarm by itself)
+        syn_cases = []
+        ctx.notes.append('synthetic-cell driver not applicable to this source (TypeError in the driver glue); end-to-end families only')
     ctx.coverage['screened'] = {
         'rule': 'screening = real spheregroup call compared (uncertified, in the implementation process) with a brute-force labelling; '
                 'suspicious cases and a sample are then evaluated like every other case (recorded internals, Coq)',
-        'lattice_tree_cases': len(sky), 'lattice_tree_suspicious': len(sky_sus),
+        'lattice_tree_cases': n_tree, 'lattice_loop_cases': n_loop, 'corner_lattice_cases': len(sky) - n_tree - n_loop,
+        'sky_suspicious_by_family': {f: len(ks) for f, ks in by_fam.items()},
+        'synthetic_driver_applicable': not SYN_INAPPLICABLE[0],
         'synthetic_cell_cases': len(syn), 'synthetic_suspicious': len(syn_sus),
         'synthetic_exhaustive_edge_orders': sum(1 for c in syn if c['fam'] == 'synthetic-exhaustive')}
     results, _ = run_batch(cases)
@@ -575,6 +749,7 @@ def correspond(ctx, proof_ok=True):
         'skipped_near_threshold': skipped,
         'samples': [dict(cases[n], impl=results[n]['ok']) for n in idx[:3]] + [dict(cases[n], impl=results[n]['ok']) for n in idx[-1:]],
     })
+    check_histories(ctx)
     seen = set()
     for n, v in zip(idx, verdicts):
         if v == 0:
@@ -622,6 +797,15 @@ def correspond(ctx, proof_ok=True):
 
 
 def replay(ctx, rep):
+    if rep.get('history'):
+        h = rep['history']
+        rs = C.run_impl('c05_impl.py', {'mode': 'history', 'histories': [h]})['histories'][0]
+        for ci, (c, r) in enumerate(zip(h, rs)):
+            print('call %d: %d points, linklength=%r chunksize=%r' % (ci, len(c['ra']), c['linklength'], c['chunksize']))
+            print('   when returned  :', r.get('immediate', r.get('err')))
+            print('   after last call:', r.get('ok'))
+            print('   expected ingroup (uncertified):', py_components([int(x) for x in r['adj']], len(c['ra'])))
+        return 0
     c = rep.get('call')
     sc = rep.get('synthetic_call')
     if sc:
